@@ -95,7 +95,8 @@ func Valid(t *rapid.T, kind string) string {
 		case 1:
 			s += "pkg-1.0.tar.gz" + sub
 		case 2:
-			s += "download" + sub + "?archive=" + rapid.SampledFrom([]string{"tgz", "tar.gz"}).Draw(t, "archive")
+			s += "download" + sub + "?" + rapid.SampledFrom([]string{"archive=tgz", "archive=tar.gz", "archive=tar%2Egz", "%61rchive=tar.gz", "myarchive=tar.gz&archive=tar.gz",
+				"archive=tar.gz&v=tar.gz", "x=archive=tar.gz&archive=tar.gz", "archive=tgz&tag=archive=tar.gz"}).Draw(t, "archive")
 		default:
 			s += "pkg.tgz" + sub + "?" + rapid.SampledFrom([]string{"token=abc", "v=1&w=2", "something=anything", "mirror=https://cdn.example.net/pkg.tgz", "next=//x"}).Draw(t, "q")
 		}
